@@ -677,8 +677,89 @@ W13 = [_world("W13-used-enums-and-inputs-only", _W13_SDL, _W13_Q, config={"inclu
               config={"include_all_enums": False, "plugins": [PLUGINS[0], PLUGINS[2]]})]
 
 
+_W14_SDL = """
+type Query {
+  user(id: ID!): User
+  users: [User!]!
+}
+
+type User {
+  id: ID!
+  name: String!
+  pet: Pet
+  friendPet: Pet
+  friend: User
+}
+
+type Pet {
+  id: ID!
+  name: String!
+  age: Int
+}
+"""
+# names that collide after the generator's own name mangling: fragment userFriend + field pet and fragment user + field
+# friendPet both give a nested class UserFriendPet; any outcome is acceptable here as long as it is the same in every environment
+W14 = [_world("W14-colliding-class-names", _W14_SDL, """
+fragment userFriend on User {
+  id
+  pet {
+    id
+    age
+  }
+}
+
+fragment user on User {
+  name
+  friendPet {
+    name
+  }
+}
+
+query GetUser($id: ID!) {
+  user(id: $id) {
+    ...user
+  }
+}
+
+query GetFriend($id: ID!) {
+  user(id: $id) {
+    ...userFriend
+  }
+}
+"""),
+       _world("W14b-names-differing-only-in-case", _W14_SDL, """
+fragment userinfo on User {
+  id
+}
+
+fragment userInfo on User {
+  name
+}
+
+fragment USERINFO on User {
+  friend {
+    id
+  }
+}
+
+query GetThem {
+  users {
+    ...userinfo
+    ...userInfo
+    ...USERINFO
+  }
+}
+
+query getthem {
+  users {
+    ...userInfo
+  }
+}
+""")]
+
+
 def all_worlds() -> List[dict]:
-    return [W1, W2, W2b, W3, W4, W5, W7, W8, W9] + W10 + W11 + W12 + W13
+    return [W1, W2, W2b, W3, W4, W5, W7, W8, W9] + W10 + W11 + W12 + W13 + W14
 
 
 def by_id(wid: str) -> dict:
